@@ -97,21 +97,23 @@ impl Answers for Real<'_> {
         let d = <&MethodDescriptorSlice>::try_from(&*d).map_err(rej("method descriptor", desc))?;
         self.r.map_method(o, n, d).map(|x| (from_java(x.name.as_inner()), from_java(x.desc.as_inner()))).map_err(rem)
     }
+    // A reference is judged position by position through the remapper's *primitive* answers: the owner is a class reference
+    // (`map_class_any`, like the operand of a checkcast), name and descriptor are what `map_field` / `map_method` answer for
+    // the original owner; a method of an array class (`[La/B;.clone()`) keeps its name and its descriptor, as `map_method_ref` documents
+    // ("If the MethodRef references an array class, no remapping of the name or descriptor is performed"). The
+    // convenience methods `map_field_ref` / `map_method_ref` are deliberately NOT the oracle: they are what dukebox itself
+    // calls, so an expectation taken from them agrees with any slip inside them (a seeded change made `map_method_ref` leave
+    // array owners alone: the declaration `a/Color` was renamed, `[La/Color;.clone()` was not, and the monitor saw nothing).
     fn field_ref(&self, m: &MemberRef) -> Ans<MemberRef> {
-        let r = FieldRef {
-            class: ObjClassName::try_from(jv(&m.owner, "owner")?).map_err(rej("owner", &m.owner))?,
-            name: FieldName::try_from(jv(&m.name, "field name")?).map_err(rej("field name", &m.name))?,
-            desc: FieldDescriptor::try_from(jv(&m.desc, "field descriptor")?).map_err(rej("field descriptor", &m.desc))?,
-        };
-        self.r.map_field_ref(&r).map(|x| MemberRef { owner: from_java(x.class.as_inner()), name: from_java(x.name.as_inner()), desc: from_java(x.desc.as_inner()) }).map_err(rem)
+        let owner = self.class_any(&m.owner)?;
+        let (name, desc) = self.field(&m.owner, &m.name, &m.desc)?;
+        Ok(MemberRef { owner, name, desc })
     }
     fn method_ref(&self, m: &MemberRef) -> Ans<MemberRef> {
-        let r = MethodRef {
-            class: ClassName::try_from(jv(&m.owner, "owner")?).map_err(rej("owner", &m.owner))?,
-            name: MethodName::try_from(jv(&m.name, "method name")?).map_err(rej("method name", &m.name))?,
-            desc: MethodDescriptor::try_from(jv(&m.desc, "method descriptor")?).map_err(rej("method descriptor", &m.desc))?,
-        };
-        self.r.map_method_ref(&r).map(|x| MemberRef { owner: from_java(x.class.as_inner()), name: from_java(x.name.as_inner()), desc: from_java(x.desc.as_inner()) }).map_err(rem)
+        let owner = self.class_any(&m.owner)?;
+        if m.owner.0.first() == Some(&b'[') { return Ok(MemberRef { owner, name: m.name.clone(), desc: m.desc.clone() }); }
+        let (name, desc) = self.method(&m.owner, &m.name, &m.desc)?;
+        Ok(MemberRef { owner, name, desc })
     }
 }
 
